@@ -85,6 +85,8 @@ type plScenario struct {
 	Clock    int  // number of optional "advance the clock by one tick interval" actions
 	ParkRegister bool
 	RetryTimes int
+	MsgPosPChannel bool // message positions name the source pchannel (as the MQ layer does) instead of the vchannel
+	HeavyBound int // lower deviation bound for a scenario with many streams
 	Hooks      string // which verif yield points park: "" = pack.computed + barrier.signal, "all" = every hook
 	Bound      *int // deviation bound override for this scenario
 	DelayPartitionOnTarget bool // downstream partition id appears only when the create-partition event is applied
@@ -233,7 +235,7 @@ func (c *plColl) partID(name string) int64 {
 	return c.Parts[name]
 }
 
-func plBuildLog(c *plColl, sh *plShard, seq *int) ([]*msgstream.MsgPack, []*plSrcMsg) {
+func plBuildLog(c *plColl, sh *plShard, seq *int, posPChannel bool) ([]*msgstream.MsgPack, []*plSrcMsg) {
 	var packs []*msgstream.MsgPack
 	var src []*plSrcMsg
 	srcP := funcutil.ToPhysicalChannel(sh.SrcV)
@@ -253,6 +255,9 @@ func plBuildLog(c *plColl, sh *plShard, seq *int) ([]*msgstream.MsgPack, []*plSr
 			ts := plTs(m.Ms, m.Lg)
 			id := fmt.Sprintf("%s#%d.%d", sh.SrcV, pi, mi)
 			pos := &msgpb.MsgPosition{ChannelName: sh.SrcV, MsgID: []byte(id), Timestamp: ts}
+			if posPChannel {
+				pos.ChannelName = srcP
+			}
 			bm := msgstream.BaseMsg{BeginTimestamp: ts, EndTimestamp: ts, HashValues: []uint32{0}, MsgPosition: pos}
 			part := m.Part
 			if part == "" {
@@ -398,7 +403,7 @@ func plExecute(t *testing.T, sc *plScenario, ctl *sched.Ctl) *plRun {
 			r.target.colls[r.target.key(c.DB, c.Name)] = r.targetInfo(c)
 		}
 		for _, sh := range c.Shards {
-			packs, src := plBuildLog(c, sh, &seq)
+			packs, src := plBuildLog(c, sh, &seq, sc.MsgPosPChannel)
 			r.mq.SetLog(sh.SrcV, packs)
 			r.src = append(r.src, src...)
 			for _, s := range src {
@@ -538,9 +543,14 @@ func (s plSched) Point(key, label string, free bool) {
 
 func (r *plRun) targetInfo(c *plColl) *model.CollectionInfo {
 	ci := &model.CollectionInfo{DatabaseName: c.DB, CollectionID: c.TgtID, CollectionName: c.Name, Partitions: map[string]int64{"_default": c.TgtID*10 + 1}}
+	vs := make([]string, 0, len(c.Shards))
 	for _, sh := range c.Shards {
-		ci.VChannels = append(ci.VChannels, sh.TgtV)
-		ci.PChannels = append(ci.PChannels, funcutil.ToPhysicalChannel(sh.TgtV))
+		vs = append(vs, sh.TgtV)
+	}
+	sort.Slice(vs, func(i, j int) bool { return vs[i][strings.LastIndex(vs[i], "v"):] < vs[j][strings.LastIndex(vs[j], "v"):] })
+	for _, v := range vs {
+		ci.VChannels = append(ci.VChannels, v)
+		ci.PChannels = append(ci.PChannels, funcutil.ToPhysicalChannel(v))
 	}
 	for k, v := range c.TgtParts {
 		ci.Partitions[k] = v
